@@ -211,9 +211,8 @@ func (self *DbImpl) Stats() bbolt.Stats {
 }
 
 func (self *DbImpl) RootBucket(tx *bbolt.Tx) (*bbolt.Bucket, error) {
-	self.reloadLock.RLock()
-	defer self.reloadLock.RUnlock()
-
+	// no reloadLock here: the caller got tx from View/Update/Batch, which hold the read lock for
+	// the whole transaction. Taking it again would deadlock with a restore waiting for the write lock.
 	rootBucket := tx.Bucket([]byte(self.rootBucket))
 	if rootBucket == nil {
 		return nil, fmt.Errorf("db missing root bucket [%v]", self.rootBucket)
@@ -242,8 +241,9 @@ func (self *DbImpl) Snapshot(path string) (string, string, error) {
 }
 
 func (self *DbImpl) SnapshotInTx(tx *bbolt.Tx, path string) (string, string, error) {
-	self.reloadLock.RLock()
-	defer self.reloadLock.RUnlock()
+	// no reloadLock here: the caller got tx from View/Update/Batch, which hold the read lock for
+	// the whole transaction. Taking it again would deadlock with a restore waiting for the write lock.
+	dbPath := tx.DB().Path()
 
 	now := time.Now()
 	dateStr := now.Format("20060102")
@@ -251,12 +251,12 @@ func (self *DbImpl) SnapshotInTx(tx *bbolt.Tx, path string) (string, string, err
 
 	path = strings.ReplaceAll(path, "__DATE__", dateStr)
 	path = strings.ReplaceAll(path, "__TIME__", timeStr)
-	path = strings.ReplaceAll(path, "__DB_DIR__", filepath.Dir(self.db.Path()))
-	path = strings.ReplaceAll(path, "__DB_FILE__", filepath.Base(self.db.Path()))
+	path = strings.ReplaceAll(path, "__DB_DIR__", filepath.Dir(dbPath))
+	path = strings.ReplaceAll(path, "__DB_FILE__", filepath.Base(dbPath))
 	path = strings.ReplaceAll(path, "DATE", dateStr)
 	path = strings.ReplaceAll(path, "TIME", timeStr)
-	path = strings.ReplaceAll(path, "DB_DIR", filepath.Dir(self.db.Path()))
-	path = strings.ReplaceAll(path, "DB_FILE", filepath.Base(self.db.Path()))
+	path = strings.ReplaceAll(path, "DB_DIR", filepath.Dir(dbPath))
+	path = strings.ReplaceAll(path, "DB_FILE", filepath.Base(dbPath))
 
 	pfxlog.Logger().WithField("path", path).Info("snapshotting database to file")
 
